@@ -54,11 +54,19 @@ for i in range(0, len(cases) - 1, 2):
     for x, y in ((cases[i], cases[i + 1]), (cases[i + 1], cases[i])):
         inst = DependencyChartLayout()
         try:
-            lay(inst, x)
+            nodes_x = [str(n) for n in x["nodes"]]
+            ed_x, et_x = {}, []
+            for a, b in x["edges"]:
+                ed_x.setdefault(str(a), []).append(str(b)); et_x.append((str(a), str(b)))
+            first_result = inst.from_graph_data(nodes_x, ed_x, et_x)          # the object the caller keeps
+            first_copy = {k: list(v) for k, v in first_result.items()}
             got = lay(inst, y)
             want = lay(DependencyChartLayout(), y)
             if got != want:
                 bad.append({"first": x, "second": y, "on_used_instance": got, "on_fresh_instance": want})
+            elif {k: list(v) for k, v in first_result.items()} != first_copy:
+                bad.append({"first": x, "second": y, "first_result_before_second_call": first_copy,
+                            "first_result_after_second_call": {k: list(v) for k, v in first_result.items()}})
         except BaseException as e:
             bad.append({"first": x, "second": y, "raised": repr(e)})
 print(json.dumps(bad[:5]))
